@@ -4550,6 +4550,13 @@ _dispatch_workloop_push_waiter(dispatch_workloop_t dwl,
 		qos = DISPATCH_QOS_DEFAULT;
 	}
 
+	// A waiter that does not wait for a kernel workloop (DISPATCH_WLH_ANON)
+	// lives on its thread's stack and can be handed the lock, woken and gone
+	// as soon as it is published below: read what is needed from it now, and
+	// do not touch it afterwards
+	bool dsc_is_anon = (dsc->dc_data == DISPATCH_WLH_ANON);
+	bool dsc_pushed_by_waiter = (dsc->dsc_waiter == _dispatch_tid_self());
+
 	prev = _dispatch_workloop_push_update_tail(dwl, qos, dc);
 	_dispatch_workloop_push_update_prev(dwl, qos, prev, dc);
 	if (likely(!os_mpsc_push_was_empty(prev))) return;
@@ -4573,7 +4580,9 @@ _dispatch_workloop_push_waiter(dispatch_workloop_t dwl,
 		}
 	});
 
-	dsc->dsc_wlh_was_first = (dsc->dsc_waiter == _dispatch_tid_self());
+	if (!dsc_is_anon) {
+		dsc->dsc_wlh_was_first = dsc_pushed_by_waiter;
+	}
 
 	if ((old_state ^ new_state) & DISPATCH_QUEUE_IN_BARRIER) {
 		return _dispatch_workloop_barrier_complete(dwl, qos, 0);
